@@ -3,7 +3,7 @@ CONSTANTS
   MaxRuns = 4
   MaxSeeds = 3
   Budgets = {0, 1, 2, 3}
-  Platforms = {"gitlab", "github"}
+  Platforms = {"gitlab", "github", "bitbucket"}
   Strips = {FALSE, TRUE}
   Shifts = {0, 1}
   Mods = {"all", "first"}
